@@ -76,7 +76,7 @@ def malformations(kind, case, rng):
     f_any = ob.features_of(case)[rng.randrange(len(ob.features_of(case)))]
     if kind == 'QuantitativeDiscretizer': f_any = case['quantitative'][0]
     if kind == 'QualitativeDiscretizer': f_any = (case['qualitative'] + case['ordinal'])[0]
-    mk('missing_feature_column_in_X', X=X.drop(columns=[f_any]))
+    mk('missing_feature_column_in_X', X=X.drop(columns=[f_any]), column=f_any)
     if Xd is not None and 'Carver' in kind: mk('missing_feature_column_in_X_dev', X_dev=Xd.drop(columns=[f_any]))
     if kind == 'BinaryCarver':
         y3 = y.copy(); y3.iloc[pos] = 2; mk('binary_target_with_three_classes', y=y3)
@@ -116,7 +116,7 @@ def one(arg):
     except Exception:
         return recs
     for name, kw in malformations(kind, case, rng):
-        args = dict(X=case['X'], y=case['y'], X_dev=case['X_dev'], y_dev=case['y_dev']); args.update({k: v for k, v in kw.items() if k != 'ctor'})
+        args = dict(X=case['X'], y=case['y'], X_dev=case['X_dev'], y_dev=case['y_dev']); args.update({k: v for k, v in kw.items() if k not in ('ctor', 'column')})
         # (a) on a fresh object
         try:
             o = constructor(kind, case, cfg, **kw.get('ctor', {})); do_fit(o, kind, args['X'], args['y'], args['X_dev'], args['y_dev'])
@@ -134,7 +134,8 @@ def one(arg):
         rec('fit#frame.rejected_call_leaves_fitted_state_unchanged', not diff, 'after a rejected fit (%s): %r changed' % (name, diff), dict(malformation=name))
         if isinstance(args['X'], pd.DataFrame) and not frame_equal(args['X'], case['X']):
             t = outcome(lambda: fitted.transform(args['X']))
-            if name in ('missing_feature_column_in_X', 'value_absent_from_ordinal_ranking'):
+            still_used = kw.get('column') is None or kw['column'] in fitted.features or kw['column'] in fitted.features_casting     # (a column of a feature the fit dropped is no longer needed)
+            if name in ('missing_feature_column_in_X', 'value_absent_from_ordinal_ranking') and still_used and (name != 'value_absent_from_ordinal_ranking' or case['ordinal'][0] in fitted.features):
                 rec('transform#raises.AssertionError.' + name, t[0] == 'reject', 'transform of X with %s: %s' % (name, t[0]), dict(malformation=name))
             after2 = state_of(fitted, case['X'])
             rec('transform#frame.rejected_call_leaves_fitted_state_unchanged', before == after2 or after == after2, 'after transform of malformed X (%s) the fitted state changed' % name, dict(malformation=name))
